@@ -337,6 +337,30 @@ def run(ctx):
                              for p in rets)
                 exh = all(any(e.kind == "guard" and e.b == "None" for e in p.events[:3]) for p in rets)
                 ok_loop = it_ok and ret_ok and exh
+    if not loops:
+        # the same as one expression:  text.chars().map(escape_one_char).collect::<String>()   (collecting Strings into a
+        # String concatenates them in iteration order; the types admit nothing else)
+        text = T("param", 1, ab.dbg.get(1, ""))
+        ps = [p for p in mir.walk_function(ab) if p.outcome[0] not in ("unreachable", "infeasible")]
+        if len(ps) == 1 and ps[0].outcome[0] == "return" and not [e for e in ps[0].events if e.kind in ("guard", "store")]:
+            r = mir.strip(ps[0].outcome[1])
+            if isinstance(r, tuple) and r[0] == "call" and mir.method_name(r[1]) == "collect" and len(r[2]) == 1:
+                m = r[2][0]
+                if isinstance(m, tuple) and m[0] == "call" and mir.method_name(m[1]) == "map" and len(m[2]) == 2:
+                    it, f = m[2]
+                    if isinstance(it, tuple) and it[0] == "iter" and it[2] == "fwd":
+                        it = it[1]
+                    src_ok = isinstance(it, tuple) and it[0] == "call" and mir.method_name(it[1]) == "chars" and it[2] == (text,)
+                    f_ok = f == T("const", T("fn", ESC))
+                    if not f_ok and isinstance(f, tuple) and f and f[0] == "closure":
+                        elem = T("mapelem", it)
+                        cps, cb_ = mir.walk_closure(ctx.body, f, param_terms=[elem])
+                        crets = [q for q in cps if q.outcome[0] == "return"]
+                        f_ok = (len(crets) == 1 and len(cps) == 1 and not [e for e in crets[0].events if e.kind in ("guard", "store")]
+                                and isinstance(crets[0].outcome[1], tuple) and crets[0].outcome[1][0] == "call" and crets[0].outcome[1][1] == ESC
+                                and mir.strip(crets[0].outcome[1][2][0]) == elem)
+                    only = [e.a for e in ps[0].events if e.kind == "call"]
+                    ok_loop = src_ok and f_ok and all(mir.method_name(c) in ("chars", "map", "collect") for c in only)
     ck.ob("C17-R3", ARG, "maps-every-char-in-order-through-escape_one_char-and-concatenates", ok_loop)
 
     # build_exclude_text: "--exclude {}" per pattern, joined by " "
